@@ -119,6 +119,19 @@ class Harness:
         st = out_or_st.st if isinstance(out_or_st, Outcome) else out_or_st
         if isinstance(claim, bool):
             claim = z3.BoolVal(claim)
+        # identity fast path: many ledger claims are identities of the terms the code computed; they are unsatisfiable
+        # on their own, without the (possibly hard, nonlinear) path condition
+        if not z3.is_false(z3.simplify(claim)):
+            s0 = z3.Solver()
+            s0.set("timeout", 3000)
+            s0.add(z3.Not(claim))
+            t0 = time.time()
+            r0 = s0.check()
+            self.solver_time += time.time() - t0
+            if r0 == z3.unsat:
+                rec = {"name": name, "time_s": round(time.time() - t0, 4), "status": "holds", "identity": True}
+                self.obligations.append(rec)
+                return rec
         s = z3.Solver()
         s.set("timeout", self.timeout_ms)
         for _, a in self.assumptions:
